@@ -20,10 +20,11 @@ RULE = ('(1) every modelled built-in class x space kinds (unweighted / const / a
 ASSUMPTIONS = ['exact arithmetic: entries are small integers / dyadic rationals, so float results are exact or within 1e-9',
                'every ODL space used has a diagonal Gram matrix (checked on each case: off-diagonal inner products are 0)',
                'the inner products themselves (Gram diagonals are read from the implementation) are the subject of C02',
-               'finite-difference leaves reuse C13 (tables regenerated from diff_ops.py)']
+               'finite-difference leaves reuse C13 (tables regenerated from diff_ops.py); ResizingOperator leaves reuse '
+               'C16 (slice arithmetic regenerated from resize_array), in its separable form']
 TRUSTED = ['harness/c05.py:encode (reads the operator object graph: class names, .left/.right/.scalar/.vector/.matrix ...)',
            'C05/Model.v eval/adjoint (hand-written; validated by the correspondence on every class/option)',
-           'translate/finite_diff.py (shared with C13)']
+           'translate/finite_diff.py (shared with C13)', 'translate/padding.py (shared with C16)']
 
 warnings.filterwarnings('ignore')
 
@@ -962,16 +963,20 @@ LEVEL_TEXT = ('Proof: Coq proves, over an abstract commutative ring with involut
               'EVERY operator expression tree (sum, composition, scalar multiples on either side, vector multiples on either '
               'side, functional-times-vector, Broadcast/Reduction/Diagonal blocks; any depth and width) the expression the '
               'library returns as .adjoint (mirrored incl. Python operator dispatch and scalar merging) maps range to '
-              'domain and satisfies <Ax,y>_ran = <x,A*y>_dom in the weighted inner products whenever the leaves do, and that '
-              'A.adjoint.adjoint acts like A (uniqueness of adjoints). Leaf theorems for all sizes/index lists/weights: '
-              'Scaling, Multiply, InnerProduct, field-Multiply, Zero (any weights); Matrix, Sampling, WeightedSumSampling, '
-              'Flattening (+inverse), ComponentProjection(+Adjoint), 1-d PartialDerivative for all 30 method/padding pairs '
-              '(via C13) under the exact weighting precondition -- and the full statements are REFUTED by witnesses on '
-              'non-uniformly weighted spaces (8 recorded findings). The model is tied to the code by an in-Coq '
-              'correspondence on full bases (forward, adjoint, double adjoint, spaces, and the identity verdict).')
-LEVEL_NOTE = ('Validated, not proved: PointwiseInner(Adjoint), Gradient/Divergence/Laplacian and N-d PartialDerivative, '
-              'RealPart/ImagPart/ComplexEmbedding (modelled + correspondence + probes); ResizingOperator, N-d/sparse '
-              'MatrixOperator, DFT (probes only). Trusted: the encoder reading the operator object graph, exact-arithmetic '
-              'idealisation (dyadic inputs), Gram diagonals read from the implementation (C02). The generic theorems are '
-              'closed under the global context; instances at R use the classical-reals axioms printed.')
+              'domain and satisfies <Ax,y>_ran = <x,A*y>_dom in the weighted inner products whenever the leaves do, that the '
+              'returned adjoint is again such a tree, and that A.adjoint.adjoint acts like A. Leaf theorems for all '
+              'sizes/shapes/index lists: Scaling, Multiply, InnerProduct, field-Multiply, Zero, PointwiseInner(+Adjoint), '
+              'RealPart/ImagPart/ComplexEmbedding (any weights); Matrix (1-d and along an axis of any N-d shape), Sampling, '
+              'WeightedSumSampling, Flattening(+inverse), ComponentProjection(+Adjoint), PartialDerivative/Gradient/'
+              'Divergence/Laplacian for every shape and all method/padding pairs (lifting C13), ResizingOperator for all 5 pad '
+              'modes (lifting C16) under the exact weighting precondition -- and the full statements are REFUTED by '
+              'witnesses on non-uniformly weighted spaces (6 open findings; 2 fixed in /repo). Preconditions of the Matrix '
+              'and Sampling theorems are proved necessary. The model is tied to the code by an in-Coq correspondence on '
+              'full bases (structure, spaces, forward, adjoint, double adjoint, identity verdict).')
+LEVEL_NOTE = ('Validated, not proved: the code-order adjoint of ResizingOperator when several axes are resized at once '
+              '(proved for the reversed axis order and for <= 1 resized axis), sparse matrices (same model as dense), '
+              'ComponentProjection with slice/list index, operators on product-space elements, ComplexModulus derivatives, '
+              'DFT (probes only). Trusted: the encoder reading the operator object graph, exact-arithmetic idealisation '
+              '(dyadic inputs), Gram diagonals read from the implementation (C02), translators of C13/C16. The generic '
+              'theorems are closed under the global context; instances at R use the classical-reals axioms printed.')
 TECHNIQUE = 'Coq proof by structural induction over a deep embedding of operator arithmetic (abstract ring with involution) + in-Coq differential correspondence via full matrices'
